@@ -7,6 +7,28 @@ the implementation): whether the change alters the meaning of the option.
 """
 import copy
 
+# Every path or port a generated file names is a placeholder until the check has chosen the
+# run's own scratch directory and free TCP ports (fcgi groups really bind their sockets when
+# they are made): @TMP@ -> directory under the run's work directory, @P2@/@P3@/@P9@ -> ports.
+SUBST = {'@TMP@': '/nonexistent-c15-not-configured', '@P2@': '0', '@P3@': '0', '@P9@': '0'}
+
+
+def configure(tmpdir, ports):
+    SUBST['@TMP@'] = tmpdir
+    SUBST['@P2@'], SUBST['@P3@'], SUBST['@P9@'] = [str(x) for x in ports]
+
+
+def subst(t):
+    if t is None:
+        return None
+    if isinstance(t, bytes):
+        for k, v in SUBST.items():
+            t = t.replace(k.encode(), v.encode())
+        return t
+    for k, v in SUBST.items():
+        t = t.replace(k, v)
+    return t
+
 MULTI = '%(program_name)s_%(process_num)d'
 
 # option -> list of (text or None for "line absent", semantic key).  Equal keys
@@ -14,27 +36,27 @@ MULTI = '%(program_name)s_%(process_num)d'
 PROGRAM_OPTIONS = {
     'command': [('/bin/cat', 'cat'), ('/bin/cat -u', 'cat-u'), ('/bin/echo hi', 'echo')],
     'process_name': [(None, 'dflt'), ('%(program_name)s', 'dflt'), ('zz', 'zz'), ('%(group_name)s_x', 'gx')],
-    'directory': [(None, None), ('/tmp', '/tmp'), ('/', '/')],
-    'umask': [(None, None), ('022', 18), ('22', 18), ('077', 63)],
-    'priority': [(None, 999), ('999', 999), ('1', 1), ('998', 998)],
+    'directory': [(None, None), ('@TMP@', '/tmp'), ('/', '/')],
+    'umask': [(None, None), ('022', 18), ('22', 18), ('077', 63), ('000', 0)],
+    'priority': [(None, 999), ('999', 999), ('1', 1), ('998', 998), ('0', 0)],
     'autostart': [(None, True), ('true', True), ('false', False)],
     'autorestart': [(None, 'u'), ('unexpected', 'u'), ('true', 't'), ('false', 'f')],
     'startsecs': [(None, 1), ('1', 1), ('0', 0), ('5', 5)],
     'startretries': [(None, 3), ('3', 3), ('0', 0), ('10', 10)],
     'stopsignal': [(None, 15), ('TERM', 15), ('15', 15), ('INT', 2), ('KILL', 9), ('USR1', 10)],
-    'stopwaitsecs': [(None, 10), ('10', 10), ('1', 1), ('30', 30)],
+    'stopwaitsecs': [(None, 10), ('10', 10), ('1', 1), ('30', 30), ('0', 0)],
     'stopasgroup': [(None, False), ('false', False), ('true', True)],
     'killasgroup': [(None, False), ('false', False), ('true', True)],
     'exitcodes': [(None, '0'), ('0', '0'), ('0,2', '0,2'), ('1', '1')],
     'redirect_stderr': [(None, False), ('false', False), ('true', True)],
     'user': [(None, None), ('nobody', 65534), ('daemon', 1), ('1', 1)],
-    'stdout_logfile': [(None, 'AUTO'), ('AUTO', 'AUTO'), ('NONE', None), ('/tmp/c15_a.log', 'a'), ('/tmp/c15_b.log', 'b')],
+    'stdout_logfile': [(None, 'AUTO'), ('AUTO', 'AUTO'), ('NONE', None), ('@TMP@/c15_a.log', 'a'), ('@TMP@/c15_b.log', 'b')],
     'stdout_logfile_maxbytes': [(None, 50), ('50MB', 50), ('1MB', 1), ('0', 0)],
     'stdout_logfile_backups': [(None, 10), ('10', 10), ('0', 0), ('3', 3)],
     'stdout_capture_maxbytes': [(None, 0), ('0', 0), ('1KB', 1024), ('1024', 1024), ('7', 7)],
     'stdout_events_enabled': [(None, False), ('false', False), ('true', True)],
     'stdout_syslog': [(None, False), ('false', False), ('true', True)],
-    'stderr_logfile': [(None, 'AUTO'), ('AUTO', 'AUTO'), ('NONE', None), ('/tmp/c15_a.log', 'a'), ('/tmp/c15_b.log', 'b')],
+    'stderr_logfile': [(None, 'AUTO'), ('AUTO', 'AUTO'), ('NONE', None), ('@TMP@/c15_a.log', 'a'), ('@TMP@/c15_b.log', 'b')],
     'stderr_logfile_maxbytes': [(None, 50), ('50MB', 50), ('1MB', 1), ('0', 0)],
     'stderr_logfile_backups': [(None, 10), ('10', 10), ('0', 0), ('3', 3)],
     'stderr_capture_maxbytes': [(None, 0), ('0', 0), ('1KB', 1024), ('7', 7)],
@@ -42,7 +64,7 @@ PROGRAM_OPTIONS = {
     'stderr_syslog': [(None, False), ('false', False), ('true', True)],
     'environment': [(None, ()), ('A="1"', (('A', '1'),)), ('A="2"', (('A', '2'),)),
                     ('A="1",B="2"', (('A', '1'), ('B', '2'))), ('B="2",A="1"', (('A', '1'), ('B', '2')))],
-    'serverurl': [(None, None), ('AUTO', None), ('http://localhost:9001', 'h'), ('unix:///tmp/c15_s.sock', 'u')],
+    'serverurl': [(None, None), ('AUTO', None), ('http://localhost:9001', 'h'), ('unix://@TMP@/c15_s.sock', 'u')],
 }
 # options that need a process_name with %(process_num)d
 MULTI_OPTIONS = {
@@ -55,22 +77,23 @@ POOL_OPTIONS = {
     'buffer_size': [(None, 10), ('10', 10), ('20', 20), ('1', 1)],
     'events': [('TICK_5', ('TICK_5',)), ('TICK_5,TICK_60', ('TICK_5', 'TICK_60')), ('TICK_60,TICK_5', ('TICK_5', 'TICK_60')),
                ('PROCESS_STATE', ('PROCESS_STATE',)), ('tick_5', ('TICK_5',)),
+               ('PROCESS_STATE,PROCESS_STATE_RUNNING', ('PROCESS_STATE', 'PROCESS_STATE_RUNNING')),
                ('PROCESS_COMMUNICATION,SUPERVISOR_STATE_CHANGE,EVENT', ('EVENT', 'PROCESS_COMMUNICATION', 'SUPERVISOR_STATE_CHANGE')),
                ('EVENT,SUPERVISOR_STATE_CHANGE,PROCESS_COMMUNICATION', ('EVENT', 'PROCESS_COMMUNICATION', 'SUPERVISOR_STATE_CHANGE'))],
     'result_handler': [(None, 'd'), ('supervisor.dispatchers:default_handler', 'd'),
                        ('supervisor.childutils:get_asctime', 'g')],
     # absent: pool -1 and its processes 999; given: both take the value
-    'priority': [(None, 'dflt'), ('-1', -1), ('999', 999), ('5', 5)],
+    'priority': [(None, 'dflt'), ('-1', -1), ('999', 999), ('5', 5), ('0', 0)],
 }
 FCGI_OPTIONS = {
-    'socket': [('unix:///tmp/c15.sock', 'u1'), ('unix:///tmp/c15b.sock', 'u2'), ('tcp://localhost:9002', 't1'),
-               ('tcp://localhost:9003', 't2'), ('tcp://127.0.0.1:9002', 't3')],
+    'socket': [('unix://@TMP@/c15.sock', 'u1'), ('unix://@TMP@/c15b.sock', 'u2'), ('tcp://localhost:@P2@', 't1'),
+               ('tcp://localhost:@P3@', 't2'), ('tcp://127.0.0.1:@P2@', 't3')],
     'socket_owner': [(None, None), ('nobody', 'n'), ('daemon:daemon', 'd')],
-    'socket_mode': [(None, 0o700), ('0700', 0o700), ('0777', 0o777), ('0600', 0o600)],
+    'socket_mode': [(None, 0o700), ('0700', 0o700), ('0777', 0o777), ('0600', 0o600), ('0000', 0), ('0', 0)],
     'socket_backlog': [(None, None), ('5', 5), ('10', 10)],
 }
 GROUP_OPTIONS = {
-    'priority': [(None, 999), ('999', 999), ('5', 5)],
+    'priority': [(None, 999), ('999', 999), ('5', 5), ('0', 0)],
     'programs': [('a,b', 'ab'), ('a', 'a'), ('b,a', 'ba'), ('a,b,c', 'abc')],
 }
 
@@ -98,14 +121,14 @@ def host(kind, option, text):
     if kind == 'listener':
         return [('eventlistener:a', _opts([('command', '/bin/cat'), ('events', 'TICK_5')], option, text)), BYSTANDER], 'a'
     if kind == 'fcgi':
-        return [('fcgi-program:a', _opts([('command', '/bin/cat'), ('socket', 'unix:///tmp/c15.sock')], option, text)),
+        return [('fcgi-program:a', _opts([('command', '/bin/cat'), ('socket', 'unix://@TMP@/c15.sock')], option, text)),
                 BYSTANDER], 'a'
     if kind == 'fcgi_tcp':
-        return [('fcgi-program:a', _opts([('command', '/bin/cat'), ('socket', 'tcp://localhost:9002')], option, text)),
+        return [('fcgi-program:a', _opts([('command', '/bin/cat'), ('socket', 'tcp://localhost:@P2@')], option, text)),
                 BYSTANDER], 'a'
     if kind == 'fcgi_member':
         return [('group:g', [('programs', 'a,b')]),
-                ('fcgi-program:a', _opts([('command', '/bin/cat'), ('socket', 'unix:///tmp/c15.sock')], option, text)),
+                ('fcgi-program:a', _opts([('command', '/bin/cat'), ('socket', 'unix://@TMP@/c15.sock')], option, text)),
                 ('program:b', [('command', '/bin/true')]), BYSTANDER], 'g'
     if kind == 'group':
         return [('group:g', _opts([('programs', 'a,b')], option, text)),
@@ -189,7 +212,7 @@ def L(name, *extra):
 
 
 def F(name, *extra):
-    return ('fcgi-program:%s' % name, [('command', '/bin/cat'), ('socket', 'tcp://localhost:9002')] + list(extra))
+    return ('fcgi-program:%s' % name, [('command', '/bin/cat'), ('socket', 'tcp://localhost:@P2@')] + list(extra))
 
 
 def G(name, programs, *extra):
@@ -247,14 +270,14 @@ def structural_cases():
        ([], ['l'], [])))
     a(('pool-handler', [L('l')], [L('l', ('result_handler', 'supervisor.childutils:get_asctime'))], ([], ['l'], [])))
     a(('pool-numprocs', [L('l', *n2)], [L('l', *n3)], ([], ['l'], [])))
-    a(('fcgi-socket', [F('f')], [('fcgi-program:f', [('command', '/bin/cat'), ('socket', 'tcp://localhost:9009')])],
+    a(('fcgi-socket', [F('f')], [('fcgi-program:f', [('command', '/bin/cat'), ('socket', 'tcp://localhost:@P9@')])],
        ([], ['f'], [])))
-    a(('fcgi-socket-kind', [F('f')], [('fcgi-program:f', [('command', '/bin/cat'), ('socket', 'unix:///tmp/c15.sock')])],
+    a(('fcgi-socket-kind', [F('f')], [('fcgi-program:f', [('command', '/bin/cat'), ('socket', 'unix://@TMP@/c15.sock')])],
        ([], ['f'], [])))
     a(('priority-reorders-groups', [P('a'), P('b')], [P('a'), P('b', ('priority', '1'))], ([], ['b'], [])))
-    a(('auto-to-explicit', [P('a')], [P('a', ('stdout_logfile', '/tmp/c15_a.log'))], ([], ['a'], [])))
-    a(('explicit-to-auto', [P('a', ('stdout_logfile', '/tmp/c15_a.log'))], [P('a')], ([], [], [])))
-    a(('explicit-to-explicit', [P('a', ('stdout_logfile', '/tmp/c15_a.log'))], [P('a', ('stdout_logfile', '/tmp/c15_b.log'))],
+    a(('auto-to-explicit', [P('a')], [P('a', ('stdout_logfile', '@TMP@/c15_a.log'))], ([], ['a'], [])))
+    a(('explicit-to-auto', [P('a', ('stdout_logfile', '@TMP@/c15_a.log'))], [P('a')], ([], [], [])))
+    a(('explicit-to-explicit', [P('a', ('stdout_logfile', '@TMP@/c15_a.log'))], [P('a', ('stdout_logfile', '@TMP@/c15_b.log'))],
        ([], ['a'], [])))
     a(('sup-environment', [P('a'), L('l')], [P('a'), L('l')], None))   # harness varies [supervisord] environment
     a(('many', [P('p%d' % i) for i in range(12)], [P('p%d' % i, ('startsecs', str(i % 3))) for i in range(3, 15)], None))
@@ -311,7 +334,7 @@ def random_group(rng, name, kind=None):
     secs = [('group:%s' % name, [('programs', ','.join(members))] + _rand_opts(rng, {'priority': GROUP_OPTIONS['priority']}, 0.3))]
     for m in members:
         if rng.random() < 0.2:
-            secs.append(('fcgi-program:%s' % m, popts() + [('socket', 'tcp://localhost:9002')]))
+            secs.append(('fcgi-program:%s' % m, popts() + [('socket', 'tcp://localhost:@P2@')]))
         else:
             secs.append(('program:%s' % m, popts()))
     return secs
@@ -456,7 +479,7 @@ def render(sections):
         for k, v in opts:
             out.append('%s=%s' % (k, v))
         out.append('')
-    return '\n'.join(out) + '\n'
+    return subst('\n'.join(out) + '\n')
 
 
 def text_corruptions(rng, base, body):
@@ -474,7 +497,7 @@ def text_corruptions(rng, base, body):
         ('bad-include', good + b'[include]\n'),
         ('bad-supervisord-option', good.replace(b'[supervisord]\n', b'[supervisord]\nminfds=lots\n', 1)),
         ('bad-inet-server', good + b'[inet_http_server]\nport=notaport\n'),
-        ('bad-unix-server', good + b'[unix_http_server]\nchmod=9z9\nfile=/tmp/c15_u.sock\n'),
+        ('bad-unix-server', good + b'[unix_http_server]\nchmod=9z9\nfile=@TMP@/c15_u.sock\n'),
         ('bad-rpcinterface', good + b'[rpcinterface:x]\nsupervisor.rpcinterface_factory=nosuch_c15:f\n'),
     ]
     for i in range(6):
@@ -561,6 +584,13 @@ def update_scenarios_exhaustive(tier):
         out.append({'groups': by() + [_g('g1', 'group', 'change', [_m('a', 'running'), _m('b', 'running', True)]),
                                       _g('g2', 'group', 'change', [_m('c', 'starting')])],
                     'moves': [('b', 'g1', 'g2')], 'added': [], 'args': args, 'corrupt': False, 'label': 'move-member:%s' % ' '.join(args)})
+    # a pool subscribed to an event type and to one of its subtypes is changed / removed
+    for fate in ('change', 'remove'):
+        for evs in (['PROCESS_STATE', 'PROCESS_STATE_RUNNING'], ['EVENT', 'TICK_5'], ['PROCESS_LOG_STDOUT', 'PROCESS_LOG']):
+            g = _g('t', 'listener', fate, [_m('t', 'running')])
+            g['events'] = evs
+            out.append({'groups': by() + [g], 'added': ['n1'], 'args': [], 'corrupt': False,
+                        'label': 'pool-type-and-subtype:%s:%s' % (fate, ','.join(evs))})
     # a listener pool whose events= line is only reordered is left alone
     for recipe in ('running', 'stopped'):
         for evs in (['PROCESS_COMMUNICATION', 'SUPERVISOR_STATE_CHANGE', 'EVENT'], ['TICK_5', 'PROCESS_LOG', 'PROCESS_STATE', 'TICK_60']):
@@ -631,8 +661,8 @@ FORMAT_OK = ['%%', '%(program_name)s', '%(here)s', '%(host_node_name)s', '100%%'
 
 # option -> how the payload is embedded in a plausible value
 FORMAT_STRING_OPTIONS = {
-    'command': '/bin/cat %s', 'process_name': 'p%s', 'directory': '/tmp/%s', 'environment': 'A="%s"',
-    'stdout_logfile': '/tmp/c15_%s.log', 'stderr_logfile': '/tmp/c15_%s.log', 'serverurl': 'http://localhost/%s',
+    'command': '/bin/cat %s', 'process_name': 'p%s', 'directory': '@TMP@/%s', 'environment': 'A="%s"',
+    'stdout_logfile': '@TMP@/c15_%s.log', 'stderr_logfile': '@TMP@/c15_%s.log', 'serverurl': 'http://localhost/%s',
     'user': '%s',
 }
 FORMAT_OTHER_OPTIONS = ['priority', 'autostart', 'autorestart', 'startsecs', 'startretries', 'stopsignal', 'stopwaitsecs',
@@ -672,7 +702,7 @@ def format_corruption_cases(base, tier):
     # section-kind specific options
     for h, opts in (('listener', {'events': 'TICK_5,%s', 'buffer_size': '%s', 'result_handler': 'supervisor.dispatchers:%s',
                                   'priority': '%s'}),
-                    ('fcgi', {'socket': 'unix:///tmp/c15_%s_x', 'socket_owner': '%s', 'socket_mode': '%s',
+                    ('fcgi', {'socket': 'unix://@TMP@/c15_%s_x', 'socket_owner': '%s', 'socket_mode': '%s',
                               'socket_backlog': '%s'}),
                     ('fcgi_tcp', {'socket': 'tcp://localhost:%s'}),
                     ('group', {'programs': 'a,b%s', 'priority': '%s'})):
@@ -683,7 +713,7 @@ def format_corruption_cases(base, tier):
                 add('format:%s:%s=%s' % (h, opt, tmpl % p), good, secs, bad and opt in FORMAT_MUST_FAIL_OPTIONS)
     # [supervisord] options, [include], server sections, rpcinterface sections
     good = [P('a')]
-    sup_opts = {'logfile': '%s', 'pidfile': '%s', 'childlogdir': '%s', 'directory': '/tmp/%s', 'identifier': 'sup%s',
+    sup_opts = {'logfile': '%s', 'pidfile': '%s', 'childlogdir': '%s', 'directory': '@TMP@/%s', 'identifier': 'sup%s',
                 'environment': 'S="%s"', 'user': '%s', 'umask': '%s', 'minfds': '%s', 'loglevel': '%s',
                 'logfile_maxbytes': '%s', 'nocleanup': '%s'}
     for opt, tmpl in sorted(sup_opts.items()):
@@ -694,7 +724,7 @@ def format_corruption_cases(base, tier):
             bad_base = '\n'.join(lines + ['%s=%s' % (opt, tmpl % p)]) + '\n'
             add('format:supervisord:%s=%s' % (opt, tmpl % p), good, good, False, base_bad=bad_base)
     for sec, opts in (('include', {'files': '/nonexistent-c15/%s.conf'}),
-                      ('unix_http_server', {'file': '/tmp/c15_%s.sock', 'chmod': '%s', 'chown': '%s', 'username': '%s'}),
+                      ('unix_http_server', {'file': '@TMP@/c15_%s.sock', 'chmod': '%s', 'chown': '%s', 'username': '%s'}),
                       ('inet_http_server', {'port': '127.0.0.1:%s', 'username': '%s', 'password': '%s'}),
                       ('rpcinterface:x', {'supervisor.rpcinterface_factory': 'supervisor.rpcinterface:%s', 'extra': '%s'})):
         for opt, tmpl in sorted(opts.items()):
@@ -703,7 +733,7 @@ def format_corruption_cases(base, tier):
                     continue
                 body = [(opt, tmpl % p)]
                 if sec == 'unix_http_server' and opt != 'file':
-                    body.append(('file', '/tmp/c15_u.sock'))
+                    body.append(('file', '@TMP@/c15_u.sock'))
                 if sec == 'inet_http_server' and opt != 'port':
                     body.append(('port', '127.0.0.1:9099'))
                 if sec == 'rpcinterface:x' and opt == 'extra':
